@@ -132,6 +132,7 @@ Pre(x) == [tok |-> "pre", s |-> x]     \* prefix (!, unary -, byte modifier): wr
 Paren(t) == <<Sym("(")>> \o Render(t) \o <<Sym(")")>>
 Render(t) ==
   CASE t.k = "num"  -> <<[tok |-> "num", n |-> t.n, radix |-> t.radix, lz |-> t.lz]>>
+    [] t.k = "wnum" -> <<[tok |-> "wnum", d |-> t.d, radix |-> t.radix, lz |-> t.lz]>>     \* literal beyond 32 bits (WideExpr.tla): magnitude as base-256 limbs
     [] t.k = "bool" -> <<Sym(IF t.b THEN "true" ELSE "false")>>
     [] t.k = "pc"   -> <<Sym("*")>>
     [] t.k = "par"  -> Paren(t.e)
